@@ -107,11 +107,15 @@ Definition roundtrip_ok (ml : bool) (s : str) : bool :=
   && (ml || negb (mem LF e || mem CR e)).
 Definition roundtrip_counterexamples (ml : bool) (alpha : list N) (n : nat) : list str :=
   filter (fun s => negb (roundtrip_ok ml s)) (strings_upto alpha n).
+(** Long runs of one character (a substitution limited to its first [count] matches only fails beyond the small scope):
+    [c] repeated [m] times for every [c] of the alphabet and every [m] of [lens]. *)
+Definition roundtrip_counterexamples_runs (ml : bool) (alpha : list N) (lens : list nat) : list (N * N) :=
+  flat_map (fun c => flat_map (fun m => if roundtrip_ok ml (repeat c m) then [] else [(c, N.of_nat m)]) lens) alpha.
 
 (** Characters on which [gen_escape] can differ from the identity on a one-character string: the values of ESCAPES
     and the characters of every [replace] pattern (any other character is copied by every step). *)
 Definition interesting_chars : list N :=
   map snd (esc_table gen_tables)
-  ++ flat_map (fun cs => match snd cs with PReplace o _ => o | PSub _ => [] end) gen_pipeline.
+  ++ flat_map (fun cs => match snd cs with PReplace o _ => o | PSub _ | PSubN _ _ => [] end) gen_pipeline.
 Definition codepoint_table : list (N * list N * list N) :=
   map (fun c => (c, gen_escape false [c], gen_escape true [c])) interesting_chars.
